@@ -26,7 +26,7 @@ fn base_score(c: &SrtlaConnection) -> i32 {
     if !c.connected {
         return -1;
     }
-    let tot = c.in_flight_packets.saturating_add(c.batch_sender.queued_count());
+    let tot = c.in_flight_packets.saturating_add(c.batch_sender.verif_lens().0 as i32);
     c.window / tot.saturating_add(1).max(1)
 }
 
@@ -308,6 +308,12 @@ fn lib_multi(size: usize) -> Vec<Spec> {
         Spec { cc: Cc::Tiny, load: Load::Huge, ..c },
         Spec { cc: Cc::HugeSaturated, ..c },
         Spec { cc: Cc::HalfUsed, ..c },
+        // soft cap just below saturation: the factor must stay at its 0.1 floor (score 2000) ...
+        Spec { cc: Cc::At95, ..c },
+        Spec { cc: Cc::At999, ..c },
+        Spec { cc: Cc::At90, ..c },
+        // ... and competitors whose scores (1818, 606) lie between the floored and the un-floored value
+        Spec { window: 60000, load: Load::AtMin, ..c },
         Spec { nak: Nak::JustNow, ..c },
         Spec { nak: Nak::Burst, ..c },
         Spec { nak: Nak::Age8000, rtt: 50, ..c },
@@ -495,14 +501,14 @@ pub fn run(tier: Tier) -> Report {
     };
     let l1 = lib1(q);
     do_sweep(1, &l1, "full per-link product");
-    let lm = lib_multi(40);
-    do_sweep(2, &lm, "Lib40^2");
+    let lm = lib_multi(44);
+    do_sweep(2, &lm, "Lib44^2");
     do_sweep(2, &lib_729(), "Lib729^2 (life x load x window x gate x cc x nak)");
     if q {
-        do_sweep(3, &lib_multi(32), "Lib32^3");
+        do_sweep(3, &lib_multi(36), "Lib36^3");
     } else {
-        do_sweep(3, &lm, "Lib40^3");
-        do_sweep(4, &lib_multi(20), "Lib20^4");
+        do_sweep(3, &lm, "Lib44^3");
+        do_sweep(4, &lib_multi(24), "Lib24^4");
     }
     let calls = acc.calls.load(Ordering::Relaxed);
     rep.states = acc.distinct.lock().unwrap().len() as u64;
